@@ -20,7 +20,9 @@ CHECKS = {
             "a library goroutine that spins is reported by a real-time watchdog.", "8 C02"),
     "C03": ("model_checking", "Obs.tla rules last-frame-missing, last-frame-has-removed, last-row-not-final, write-after-wait evaluated by TLC on "
             "recorded executions (final getters after Wait vs the parsed last frame); decoration-does-not-match-state, finished-bar-not-retired, "
-            "row-group-incomplete on every frame; families with a user wait group, manual refresh, frames as high as the row limit.", "8 C03"),
+            "row-group-incomplete on every frame; families with a user wait group, manual refresh, frames as high as the row limit. "
+            "BarText.tla: the filler text as a function of the stack of filler options (OnComplete / OnAbort / Clear / middleware) and the bar's "
+            "state, every case replayed on a real bar, every frame compared.", "8 C03"),
     "C05": ("model_checking", "Obs.tla rules dup-in-frame, reappears, missing (ret(Add) < cycle start), unknown-bar, notifier-list on every frame "
             "of every recorded execution; render-request-ignored (requests vs cycles, also under a render delay), detached-push-with-room-in-the-queue "
             "(130+ bars with a long queue).", "8 C05"),
@@ -29,7 +31,7 @@ CHECKS = {
     "C07": ("model_checking", "Fill.tla (the bar filler as a step machine over component widths; termination as a liveness property, exact body "
             "width and never-too-wide as invariants) and Row.tla (decorator layout, cut with ellipsis, spacing) are model-checked by TLC; every "
             "terminated call / layout TLC enumerates is replayed on the real fillers (2 palettes x 2 directions, spinner with frames of different widths, "
-            "history-independence of the bar filler) and on one-frame containers; narrow containers (width 1-32) under the gate scheduler.", "8 C07"),
+            "history-independence of the bar filler, each row drawn again with colour-only Meta functions on every component) and on one-frame containers; narrow containers (width 1-32) under the gate scheduler.", "8 C07"),
     "C08": ("model_checking", "FillArith.tla: monotone, bounded, nearest-cell and end-point clauses checked by TLC over a grid; its table is replayed "
             "on the real filler at scales up to MaxInt64; random int64 triples are judged by exact integer arithmetic; refill clauses via Fill.tla rows.", "8 C08"),
     "C09": ("model_checking", "BarState.tla (one action per mutator, phases live/term/exited) is model-checked by TLC (invariants and action "
